@@ -354,7 +354,7 @@ PROPS = {
 PROPS["C10"] = {
     "harness": "c10",
     "props_file": "Props/C10.v",
-    "run_module": "Model.FcSummary Model.RunC10",
+    "run_module": "Model.FcSummary Model.FcTransform Model.RunC10",
     "run_fn": "run_c10",
     "pinned_theorems": ["C10_erasedb_correct", "C10_erasedxb_correct", "C10_leavable_decided", "C10_fn_decided",
                         "C10_param_decided", "C10_member_decided", "C10_item_decided", "C10_classes_sound",
@@ -367,7 +367,7 @@ PROPS["C10"] = {
 PROPS["C11"] = {
     "harness": "c11",
     "props_file": "Props/C11.v",
-    "run_module": "Model.FcSummary Model.RunC10 Model.RunC11",
+    "run_module": "Model.FcSummary Model.FcTransform Model.RunC10 Model.RunC11",
     "run_fn": "run_c11",
     "pinned_theorems": ["C11_api_preservedb_correct", "C11_items_decided", "C11_item_decided", "C11_class_decided",
                         "C11_member_decided", "C11_fn_decided", "C11_param_decided", "C11_subrel_decided"],
